@@ -30,8 +30,9 @@ CLAIMS = {
 
 LDFLAGS = ["-Wl,--wrap=malloc,--wrap=calloc,--wrap=realloc,--wrap=free"]
 NEGATIVE = ["leak_old_map", "no_ref_new", "selfattach", "cb_after_frees", "cb_twice", "no_free_bits",
-            "filter_leak", "transform_leak", "glyph_leak", "fini_keeps_map"]
-NCV = {"create": 8, "alpha": 2, "transform": 3, "filter": 3, "clip": 4}
+            "filter_leak", "transform_leak", "glyph_leak", "fini_keeps_map", "cache_destroy_leaks_glyphs",
+            "bad_insert_keeps_entry"]
+NCV = {"create": 8, "alpha": 2, "transform": 3, "filter": 3, "clip": 4, "ginsert": 4}
 
 
 def mc(chk, tier):
@@ -103,9 +104,28 @@ HANDWRITTEN = [
      "filter 1 0 1 0", "filter 1 0 1 1", "filter 1 0 0 0", "filter 1 0 0 0", "filter 1 0 1 2", "clip 1 0 2 0",
      "clip 1 0 2 1", "clip 1 0 2 2", "clip 1 0 0 0", "clip 1 0 1 2", "clip 1 0 2 3", "clip 1 0 1 1", "clip 1 0 2 0",
      "use 1 0 0 0", "ref 1 0 0 0", "unref 1 0 0 0", "unref 1 0 0 0"],
-    # glyph cache: the cache owns a copy, the argument image may go first
-    ["create 1 0 1 0", "create 2 0 2 3", "alpha 1 2 0 0", "ginsert 1 1 0 0", "ginsert 2 2 0 0", "unref 1 0 0 0",
-     "gremove 0 1 0 0", "gremove 0 1 0 0", "unref 2 0 0 0", "gremove 0 2 0 0"],
+    # glyph cache: the cache owns a copy, the argument image may go first; destroy releases what is left
+    ["gcreate 0 0 0 0", "create 1 0 1 0", "create 2 0 2 3", "alpha 1 2 0 0", "ginsert 1 1 0 0", "ginsert 2 2 0 0",
+     "glookup 0 1 0 0", "gcomp 0 0 0 0", "unref 1 0 0 0", "gcomp 0 0 1 0", "gremove 0 1 0 0", "gremove 0 1 0 0",
+     "glookup 0 1 0 0", "unref 2 0 0 0", "gdestroy 0 0 0 0"],
+    # an insert whose private copy cannot be made, followed by every kind of operation on the same cache
+    ["gcreate 0 0 0 0", "create 1 0 1 0", "ginsert 1 1 0 0", "gbad 0 2 0 0", "ginsert 1 2 0 0", "gcomp 0 0 0 0",
+     "gcomp 0 0 1 0", "gbad 0 3 0 0", "gremove 0 1 0 0", "gthaw 0 0 0 0", "gremove 0 1 0 0", "gremove 0 2 0 0",
+     "gbad 0 1 0 0", "ginsert 1 1 0 1", "gcomp 0 0 0 0", "unref 1 0 0 0", "gdestroy 0 0 0 0"],
+    ["gcreate 0 0 0 0", "gbad 0 1 0 0", "gdestroy 0 0 0 0", "gcreate 0 0 0 0", "gbad 0 1 0 0", "gbad 0 1 0 0",
+     "create 1 0 2 0", "ginsert 1 1 0 0", "unref 1 0 0 0", "gthaw 0 0 0 0", "gremove 0 1 0 0", "gdestroy 0 0 0 0"],
+]
+
+
+# thaw evicting glyphs: needs more glyphs than the high-water mark, so these run on the build whose marks are 4 / 2
+EVICTION = [
+    ["gcreate 0 0 0 0", "create 1 0 1 0"] + ["ginsert 1 %d 0 0" % k for k in (1, 2, 3, 4, 5)] +
+    ["gcomp 0 0 0 0", "gthaw 0 0 0 0"] + ["gremove 0 %d 0 0" % k for k in (1, 2, 3, 4, 5, 6)] +
+    ["ginsert 1 2 0 0", "ginsert 1 6 0 1", "unref 1 0 0 0", "gdestroy 0 0 0 0"],
+    ["gcreate 0 0 0 0", "create 1 0 2 1", "create 2 0 1 2"] + ["ginsert %d %d 0 0" % (1 + k % 2, k) for k in (1, 2, 3, 4, 5, 6)] +
+    ["gremove 0 3 0 0", "gbad 0 3 0 0", "gthaw 0 0 0 0"] + ["gremove 0 %d 0 0" % k for k in (1, 2, 3, 4, 5, 6)] +
+    ["gbad 0 1 0 0"] + ["ginsert 2 %d 0 0" % k for k in (1, 2, 3, 4, 5)] +
+    ["unref 1 0 0 0", "gcomp 0 0 1 0", "unref 2 0 0 0", "gdestroy 0 0 0 0"],
 ]
 
 
@@ -137,8 +157,8 @@ def run(prop, args):
     cfg = os.path.join(vf.SPEC, "trace", "LifeTrace.cfg")
     env = {"ASAN_OPTIONS": "detect_leaks=0:abort_on_error=1:handle_abort=0:allocator_may_return_null=1"}
 
-    def execute(script_path, trace_path):
-        exe, px = vf.build_driver("drv_life", "asan", extra_src=["life_alloc.c"], ldflags=LDFLAGS)
+    def execute(script_path, trace_path, flavour="asan"):
+        exe, px = vf.build_driver("drv_life", flavour, extra_src=["life_alloc.c"], ldflags=LDFLAGS)
         e = dict(os.environ)
         e.update(env)
         p = vf.sh([exe, script_path, trace_path], timeout=900, check=False, env=e)
@@ -202,6 +222,18 @@ def run(prop, args):
         px = execute(sp, tr)
         traces.append(tr)
         count_events(chk, tr)
+    # thaw eviction on the small-table build
+    sp = os.path.join(wd, "evict.ndjson.script")
+    with open(sp, "w") as f:
+        for k, h in enumerate(EVICTION):
+            f.write("\n".join(["reset evict%d" % k] + h + ["end"]) + "\n")
+    tr = os.path.join(wd, "evict.ndjson")
+    execute(sp, tr, flavour="smallglyph-asan")
+    traces.append(tr)
+    count_events(chk, tr)
+    for k, h in enumerate(EVICTION):
+        execs.append(["reset evict%d" % k] + h + ["end"])
+    chk.extra["executions"] = len(execs)
     chk.extra["build"] = px["hash"]
     chk.sample({"script_lines": execs[-1]})
 
